@@ -81,6 +81,9 @@ func fnBitCount(ctx *cmdContext, args map[string]any) (output respValue, err err
 	return
 }
 
+// bit offsets address a string of at most 512MB
+const maxBitOffset int64 = 512 * 1024 * 1024 * 8
+
 func parseBitfieldEncodingType(encoding string) (signed bool, width int) {
 	if strings.HasPrefix(encoding, "i") {
 		signed = true
@@ -134,6 +137,12 @@ func parseBitfieldOffset(spec string, width int) (offset int, valid bool) {
 			return
 		}
 		offset = int(n)
+	}
+	if int64(offset) >= maxBitOffset {
+		// the addressed bit must fall within the 512MB string limit
+		offset = 0
+		valid = false
+		return
 	}
 	valid = true
 	return
@@ -400,7 +409,7 @@ func fnSetBit(ctx *cmdContext, args map[string]any) (output respValue, err error
 	offset64 := args["offset"].(int64)
 	value64 := args["value"].(int64)
 
-	if offset64 < 0 {
+	if offset64 < 0 || offset64 >= maxBitOffset {
 		output.data = respErrorString("ERR bit offset is not an integer or out of range")
 		return
 	}
